@@ -373,12 +373,13 @@ def accounting(rep, f):
             if q.startswith("ReaderMgr::"):
                 continue
             pushes.setdefault(q, []).append(x)
-    names = [q for q in pushes if q not in PUSH_EXEMPT] + ["XMLScanner::countEntityExpansion"]
+    # the shared helper exists since fix c540837; a tree without it is judged by its push sites alone
+    names = [q for q in pushes if q not in PUSH_EXEMPT] + (["XMLScanner::countEntityExpansion"] if f.by_q.get("XMLScanner::countEntityExpansion") else [])
     # every function that counts expansions is examined for the form of its limit comparison,
     # whether or not it pushes a reader (WF/SG expand only predefined entities but still count)
     counters = sorted(set(x["_fn"]["q"] for x in f.kind("fld")
                           if x["f"] == "XMLScanner::fEntityExpansionCount" and x["how"] == "inc"))
-    if len(counters) < 5:
+    if len(counters) < 4:
         raise AnalysisBroken("expansion counting sites vanished: %s" % counters)
     names += [q for q in counters if q not in names]
     # per-parse refresh: the limit is re-read from the SecurityManager and the counter cleared in every scanReset
@@ -443,7 +444,7 @@ def accounting(rep, f):
         return good
 
     # the helper itself
-    for cfg in cfgs["XMLScanner::countEntityExpansion"]:
+    for cfg in cfgs.get("XMLScanner::countEntityExpansion", []):
         g = limit_guard_blocks(cfg)
         ok = bool(g) and all(fo and ro for _, fo, ro, _ in g)
         rep.ob("C19.d/limit", "XMLScanner::countEntityExpansion", ok,
